@@ -266,3 +266,62 @@ def loop_progress(prog, cg, f):
         if bad:
             out.append((L, sorted(ctl), bad))
     return out, examined
+
+
+# ---------------------------------------------------------------------------------------------------
+# out-parameter of a failing system call: struct filled by stat-family calls may be read only on the success edge
+STAT_FAMILY = {"stat", "fstat", "lstat", "fstatat", "stat64", "fstat64", "lstat64", "fstatat64", "statfs", "fstatfs", "statvfs", "fstatvfs"}
+
+
+def stat_buffer_reads(prog, cg, f):
+    """[(call node, buffer name, [(read node, guards)])] : reads of a stat buffer that are not dominated by the call's success."""
+    import re
+    from .cfg import Flow
+    out, n_calls = [], 0
+    fl = None
+    for i in f.calls():
+        n = f.nodes[i]
+        if (n.get("cname") or "") not in STAT_FAMILY or f.pos_of(i) is None:
+            continue
+        buf = None
+        for a in n.get("args", []):
+            m = f.nodes[f.strip(a)]
+            if m["k"] == "un" and m.get("op") == "&":
+                r = f.nodes[f.strip(m["sub"])]
+                if r["k"] == "ref" and r.get("dk") == "local":
+                    buf = r
+        if buf is None:
+            continue
+        n_calls += 1
+        if fl is None:
+            fl = Flow(prog, f, cg=cg)
+        # how the result is held: a local initialised/assigned from the call, or the call tested directly
+        res = None
+        par = f.parent.get(i)
+        for d in f.all("decl"):
+            for v in f.nodes[d].get("vars", []):
+                if "init" in v and v["init"] is not None and v["init"] >= 0 and f.strip(v["init"]) == i:
+                    res = v["name"]
+        call_txt = f.text(i)
+        bad = []
+        for x, m in enumerate(f.nodes):
+            if m["k"] != "member" or f.pos_of(x) is None:
+                continue
+            b = f.nodes[f.strip(m["base"])] if "base" in m and m["base"] is not None and m["base"] >= 0 else {}
+            if b.get("k") != "ref" or b.get("decl") != buf.get("decl"):
+                continue
+            g = fl.guards(x)
+            ok = False
+            for k, p in g:
+                subj = res if res else None
+                if subj and ((k in ("(-1 == %s)" % subj, "(%s == -1)" % subj, "(%s < 0)" % subj, "(0 != %s)" % subj, "(%s != 0)" % subj, subj) and p is False) or
+                             (k in ("(0 == %s)" % subj, "(%s == 0)" % subj) and p is True)):
+                    ok = True
+                if call_txt in k and ((re.match(r"^\(0 == ", k) and p is True) or (re.match(r"^\((-1 == |.* < 0\)$)", k) and p is False) or (k == call_txt and p is False) or
+                                      (k == "!" + call_txt and p is True)):
+                    ok = True
+            if not ok:
+                bad.append((x, sorted(g, key=str)))
+        if bad:
+            out.append((i, buf["name"], bad))
+    return out, n_calls
